@@ -24,7 +24,9 @@ def zipf_choice(rng, words, s=1.1):
 
 def make_schema(field_boosts=False, chars=False, vector=False, sortable=False):
     from whoosh import fields
+    # b (BOOLEAN) is always in the schema; documents carry it only when generated with boolean=True
     return fields.Schema(
+        b=fields.BOOLEAN(stored=True),
         id=fields.ID(stored=True, unique=True, sortable=sortable),
         t=fields.TEXT(stored=True, chars=chars, vector=vector, sortable=sortable),
         u=fields.TEXT(stored=True, field_boost=2.5 if field_boosts else 1.0),
@@ -34,7 +36,7 @@ def make_schema(field_boosts=False, chars=False, vector=False, sortable=False):
     )
 
 
-def gen_doc(rng, key, maxlen=6, sparse=0.15, boosts=False, burst=0.0):
+def gen_doc(rng, key, maxlen=6, sparse=0.15, boosts=False, burst=0.0, boolean=False):
     """A model document: plain dict; absent fields are simply missing.
     burst: probability that one word is repeated 3..10 times (a few documents with much higher term
     weights than their posting block neighbours: what makes block-quality skipping bite)."""
@@ -55,16 +57,18 @@ def gen_doc(rng, key, maxlen=6, sparse=0.15, boosts=False, burst=0.0):
         d["d"] = EPOCH + datetime.timedelta(days=rng.randint(0, 9))
     if boosts and rng.random() < 0.3:
         d["_boost"] = rng.choice([0.5, 2.0, 3.0])
+    if boolean and rng.random() < 0.6:
+        d["b"] = rng.random() < 0.5
     return d
 
 
 def gen_history(rng, ndocs=(1, 40), nseg=(1, 4), delete_modes=("none", "none", "few", "many", "segment"),
-                maxlen=6, boosts=False, burst=0.0):
+                maxlen=6, boosts=False, burst=0.0, boolean=False):
     """History = list of commits (each a list of model docs, merge=False) + a final delete set.
     Returns dict(commits=[[doc..]..], deletes=[key..], blocklimit=int, storage='ram'|'file')."""
     n = rng.randint(*ndocs)
     segs = rng.randint(*nseg)
-    docs = [gen_doc(rng, i, maxlen=maxlen, boosts=boosts, burst=burst) for i in range(n)]
+    docs = [gen_doc(rng, i, maxlen=maxlen, boosts=boosts, burst=burst, boolean=boolean) for i in range(n)]
     cuts = sorted(rng.sample(range(1, n), min(segs - 1, max(0, n - 1)))) if n > 1 else []
     commits, prev = [], 0
     for c in cuts + [n]:
@@ -163,8 +167,10 @@ def check_analysis():
 # query generation (whoosh query objects) and canonical shapes
 # ----------------------------------------------------------------------
 
-def gen_leaf(rng, fuzzy=True, scoring=False):
+def gen_leaf(rng, fuzzy=True, scoring=False, boolean=False):
     from whoosh import query
+    if boolean and rng.random() < 0.06:
+        return rng.choice([query.Term("b", True), query.Term("b", False), query.Every("b")])
     r = rng.random()
     if r < 0.40:
         q = query.Term("t", zipf_choice(rng, VOCAB))
@@ -206,14 +212,14 @@ def gen_leaf(rng, fuzzy=True, scoring=False):
     return q
 
 
-def gen_query(rng, depth=3, fuzzy=True, scoring=False, big_or=True):
+def gen_query(rng, depth=3, fuzzy=True, scoring=False, big_or=True, boolean=False):
     from whoosh import query
     if depth == 0 or rng.random() < 0.3:
-        return gen_leaf(rng, fuzzy, scoring)
+        return gen_leaf(rng, fuzzy, scoring, boolean)
     r = rng.random()
 
     def sub():
-        return gen_query(rng, depth - 1, fuzzy, scoring, big_or)
+        return gen_query(rng, depth - 1, fuzzy, scoring, big_or, boolean)
     if r < 0.24:
         q = query.And([sub() for _ in range(rng.randint(1, 3))])
     elif r < 0.48:
@@ -233,7 +239,7 @@ def gen_query(rng, depth=3, fuzzy=True, scoring=False, big_or=True):
         q = query.ConstantScoreQuery(sub(), score=rng.choice([0.5, 1.0, 4.0]))
     elif big_or:
         # >= 8 clauses forces the array / preloaded union (query/compound.py Or._matcher)
-        q = query.Or([gen_leaf(rng, fuzzy, scoring) for _ in range(rng.randint(8, 10))])
+        q = query.Or([gen_leaf(rng, fuzzy, scoring, boolean) for _ in range(rng.randint(8, 10))])
     else:
         q = query.Or([sub(), sub()])
     if scoring and rng.random() < 0.15:
@@ -328,6 +334,8 @@ def matches(q, d):
                 res = True
         return bool(res)
     if isinstance(q, query.Term):
+        if q.fieldname == "b":
+            return d.get("b") is not None and d["b"] == bool(q.text)
         return q.text in toks(d, q.fieldname)
     if isinstance(q, query.Prefix):
         return any(t.startswith(q.text) for t in toks(d, q.fieldname))
@@ -364,7 +372,7 @@ def matches(q, d):
     if isinstance(q, query.Every):
         if q.fieldname is None:
             return True
-        if q.fieldname in ("n", "d"):
+        if q.fieldname in ("n", "d", "b"):
             return d.get(q.fieldname) is not None
         return bool(toks(d, q.fieldname))
     if isinstance(q, query.And):
